@@ -13,7 +13,7 @@ Section Acyclic.
   Let es := edge_keys g.
   Let VS := vertex_indices g.
 
-  Definition astate := (nset * nset)%type.       (* (permanent, temporary) *)
+  Notation astate := (nset * nset)%type.       (* (permanent, temporary) *)
 
   Record AI (st : astate) : Prop := {
     ai_closed : forall x y, In x (fst st) -> edge es x y -> In y (fst st);
@@ -125,11 +125,10 @@ Section Acyclic.
   Proof.
     intros Hr. unfold is_acyclic.
     assert (Hai0 : AI ([], [])) by (constructor; cbn; tauto).
-    destruct (AWL_all (fuel_v g) root ([], []) Hai0 Hr) as [[st [Hres [Hai _]]]|[st [Hres [s [c [Hs [Hsc Hcyc]]]]]]].
+    destruct (AWL_all (fuel_v g) root ([], []) Hai0 Hr) as [[st [Hres [Hai [_ [_ Hroot]]]]]|[st [Hres [s [c [Hs [Hsc Hcyc]]]]]]].
     - cbn. tauto.
     - cbn [snd]. pose proof (cntT_le g []) as Hle. unfold fuel_v. unfold vertex_indices in Hle. rewrite map_length in Hle. lia.
     - rewrite Hres. cbn [bind fst]. exists true. split; [reflexivity|]. split; auto. intros _ [v [Hrv Hcy]].
-      destruct Hres as [_]. destruct Hai as [Hai [_ [_ Hroot]]].
       assert (Hrt : In root (fst st)) by (apply Hroot; left; auto).
       destruct Hrv as [l Hl]. apply (ai_acyc st Hai v); auto. eapply ai_stay; eauto.
     - rewrite Hres. cbn [bind fst]. exists false. split; [reflexivity|]. split; [discriminate|]. intros Hn. exfalso. apply Hn.
